@@ -201,6 +201,21 @@ struct Runner {
             return;
         }
         if constexpr (!kString) {
+            if (in(50)) {
+                // compound assignment with an operand of another arithmetic type: same usual arithmetic conversions as for a plain T
+                T old = model;
+                unsigned k = (unsigned) rng.below(6);
+                if (sizeof(T) == 1 && k != 2) k = 5;   // a floating operand could leave the range of an 8-bit value: that conversion is undefined
+                beginOp("compound-other-type");
+                if (k == 0) { double x = 1.5; log("+=(d)1.5"); *obs += x; model += x; }
+                else if (k == 1) { double x = 0.25; log("-=(d)0.25"); *obs -= x; model -= x; }
+                else if (k == 2) { short x = (short) rng.range(-2, 2); log("+=(s)" + std::to_string(x)); *obs += x; model += x; }
+                else if (k == 3) { float x = 1.5f; log("*=(f)1.5"); *obs *= x; model *= x; }
+                else if (k == 4) { double x = 2.0; log("/=(d)2"); *obs /= x; model /= x; }
+                else { long long x = 0; log("+=(ll)0"); *obs += x; model += x; }
+                endOp(!eq(old, model));
+                return;
+            }
             if (in(70)) {
                 // assignment from another arithmetic type: the decision is made on the value converted to T
                 unsigned k = (unsigned) rng.below(4);
